@@ -76,6 +76,13 @@ func RunOne(t *testing.T, sc *Scenario, tr *vh.Tracer) Result {
 	}
 	var res Result
 	tr.Begin(sc.ID)
+	stuck := false
+	defer func() {
+		// a call stuck for ever makes the bubble "deadlock" when its root function returns
+		if r := recover(); r != nil && !stuck {
+			panic(r)
+		}
+	}()
 	synctest.Test(t, func(t *testing.T) {
 		bg := context.Background()
 		var reg *regfake.Registry
@@ -261,7 +268,9 @@ func RunOne(t *testing.T, sc *Scenario, tr *vh.Tracer) Result {
 			select {
 			case <-done:
 			default:
-				t.Fatalf("scenario %d: call under test is stuck even after cancellation", sc.ID)
+				// stuck for good (not even cancellation helps): the hang is recorded; the bubble cannot end cleanly
+				stuck = true
+				return
 			}
 		} else {
 			e.mu.Lock()
